@@ -1,17 +1,296 @@
 package main
 
 import (
+	"encoding/json"
+	"flag"
 	"fmt"
+	"os"
+	"path/filepath"
+	"runtime"
+	"runtime/debug"
+	"strings"
+	"sync/atomic"
+	"time"
 
-	"github.com/openacid/slim/encode"
-	"github.com/openacid/slim/trie"
 	"github.com/openacid/slim/xsimrt"
 )
 
+// harness run|replay|merge — see /verif/check.
+
+var (
+	treeSHA    string
+	replayDir  string
+	progress   int64 // bumped whenever a run completes (watchdog)
+	simStepsWD int64
+)
+
 func main() {
-	n := 0
-	xsimrt.Hook = func(site int) { n++ }
-	st, err := trie.NewSlimTrie(encode.I32{}, []string{"a", "b", "c"}, []int32{1, 2, 3}, trie.Opt{Complete: trie.Bool(true)})
-	fmt.Println(st.Get("b"))
-	fmt.Println(err, n)
+	if len(os.Args) < 2 {
+		fmt.Fprintln(os.Stderr, "usage: harness run|replay|merge ...")
+		os.Exit(2)
+	}
+	switch os.Args[1] {
+	case "run":
+		cmdRun(os.Args[2:])
+	case "replay":
+		cmdReplay(os.Args[2:])
+	case "merge":
+		cmdMerge(os.Args[2:])
+	default:
+		fmt.Fprintln(os.Stderr, "unknown command", os.Args[1])
+		os.Exit(2)
+	}
+}
+
+func execute(scn *Scenario) *RunResult {
+	xsimrt.ResetOnceTable()
+	var res *RunResult
+	switch {
+	case scn.Lane == "race":
+		res = executeRace(scn)
+	case scn.C11 != nil:
+		res = executeC11(scn)
+	case scn.C20 != nil:
+		res = executeC20(scn)
+	case scn.C05 != nil:
+		res = executeC05(scn)
+	case scn.C07 != nil:
+		res = executeC07(scn)
+	default:
+		panic("empty scenario")
+	}
+	atomic.AddInt64(&progress, 1)
+	return res
+}
+
+func generate(prop, tier, lane string, seed uint64, worker, run int) *Scenario {
+	runSeed := Mix(seed, hashStr(prop+"/"+lane), uint64(worker), uint64(run))
+	r := NewRng(runSeed)
+	scn := &Scenario{Prop: prop, Tier: tier, Lane: lane, Seed: seed, Worker: worker, Run: run, RunSeed: runSeed}
+	switch prop {
+	case "C11":
+		scn.C11 = genC11(r, tier)
+		scn.Strat = genStrategy(r)
+	case "C20":
+		scn.C20 = genC20(r, tier)
+		scn.Strat = genStrategy(r)
+	case "C05":
+		scn.C05 = genC05(r, tier)
+		scn.Strat = genStrategy(r)
+	case "C07":
+		scn.C07 = genC07(r, tier, worker, run)
+	default:
+		fmt.Fprintln(os.Stderr, "unknown property", prop)
+		os.Exit(2)
+	}
+	if lane == "race" {
+		scn.Strat = Strategy{Kind: "none"}
+	}
+	return scn
+}
+
+func startWatchdog(limit time.Duration) {
+	go func() {
+		last := int64(-1)
+		lastChange := time.Now()
+		for {
+			time.Sleep(2 * time.Second)
+			p := atomic.LoadInt64(&progress)
+			if p != last {
+				last, lastChange = p, time.Now()
+				continue
+			}
+			if time.Since(lastChange) > limit {
+				fmt.Fprintf(os.Stderr, "WATCHDOG: no run completed for %v; the code under test blocks or spins outside the simulator's control. Exit 2 (not a verdict).\n", limit)
+				os.Exit(2)
+			}
+		}
+	}()
+}
+
+func cmdRun(args []string) {
+	fs := flag.NewFlagSet("run", flag.ExitOnError)
+	prop := fs.String("prop", "", "property id")
+	tier := fs.String("tier", "quick", "quick|thorough")
+	lane := fs.String("lane", "sim", "sim|race")
+	seed := fs.Uint64("seed", 1, "VERIF_SEED")
+	worker := fs.Int("worker", 0, "worker index")
+	runs := fs.Int("runs", 10, "number of runs for this worker")
+	out := fs.String("out", "", "partial result file")
+	deadline := fs.Float64("deadline", 0, "wall-clock safety net in seconds (0 = none)")
+	evlog := fs.Bool("evlog", false, "record per-run event-log hashes (determinism self-test)")
+	maxViol := fs.Int("maxviol", 3, "stop after this many violations")
+	fs.StringVar(&treeSHA, "tree", "", "fingerprint of the instrumented tree")
+	fs.StringVar(&replayDir, "replays", "/verif/replays", "directory for replay files")
+	fs.StringVar(&fixtureDir, "fixtures", fixtureDir, "directory of archived streams")
+	sitesFile := fs.String("sites", "", "sites.txt of the instrumented tree")
+	cur := fs.String("current", "", "race lane: file that always holds the scenario being executed")
+	fs.Parse(args)
+	loadSites(*sitesFile)
+
+	if *lane == "sim" {
+		runtime.GOMAXPROCS(1)
+		debug.SetGCPercent(-1)
+		debug.SetMemoryLimit(8 << 30)
+	}
+	startWatchdog(180 * time.Second)
+
+	stats := newStats(*prop, *tier, *lane, *seed, *worker)
+	t0 := time.Now()
+	for run := 0; run < *runs; run++ {
+		if *deadline > 0 && time.Since(t0).Seconds() > *deadline {
+			stats.Truncated = true
+			break
+		}
+		scn := generate(*prop, *tier, *lane, *seed, *worker, run)
+		if *cur != "" {
+			writeJSON(*cur, &ReplayFile{Tree: treeSHA, Scenario: *scn,
+				Violation: &Violation{Prop: *prop, Oracle: "data-race", Where: "race-detector", Detail: "the Go race detector reported a data race while this workload ran"}})
+		}
+		res := execute(scn)
+		stats.add(res)
+		if *evlog {
+			stats.EvHashes = append(stats.EvHashes, fmt.Sprintf("%d:%016x:%d", run, res.EvHash, res.Steps))
+		}
+		if res.Viol != nil {
+			ref := handleViolation(scn, res)
+			stats.Violations = append(stats.Violations, ref)
+			if len(stats.Violations) >= *maxViol {
+				break
+			}
+		}
+		if *lane == "sim" && run%4 == 3 {
+			runtime.GC()
+		}
+	}
+	stats.WallS = time.Since(t0).Seconds()
+	stats.finish()
+	if *out != "" {
+		if err := writeJSON(*out, stats); err != nil {
+			fmt.Fprintln(os.Stderr, err)
+			os.Exit(2)
+		}
+	}
+	if len(stats.Premise) > 0 {
+		fmt.Fprintln(os.Stderr, "PREMISE FAILED:", stats.Premise[0])
+	}
+}
+
+// handleViolation writes the replay file at once (un-minimised), minimises
+// within a budget and rewrites it.
+func handleViolation(scn *Scenario, res *RunResult) ViolationRef {
+	name := fmt.Sprintf("%s-%s-seed%d-w%d-r%d.json", scn.Prop, scn.Lane, scn.Seed, scn.Worker, scn.Run)
+	path := filepath.Join(replayDir, name)
+	rec := scn.clone()
+	rf := &ReplayFile{Violation: res.Viol, Tree: treeSHA, Scenario: *rec}
+	if err := writeJSON(path, rf); err != nil {
+		fmt.Fprintln(os.Stderr, "cannot write replay file:", err)
+		os.Exit(2)
+	}
+	if scn.Lane == "race" {
+		return ViolationRef{Replay: path, Viol: res.Viol}
+	}
+	// Prefer the explicit recorded schedule if it reproduces.
+	if len(res.Segs) > 0 && scn.Strat.Kind != "replay" {
+		c := scn.clone()
+		c.Strat = Strategy{Kind: "replay"}
+		c.Segs = res.Segs
+		if r2 := execute(c); sameFailure(r2, res.Viol) {
+			rec = c
+		}
+	}
+	min, v, info := minimise(rec, res.Viol, 45*time.Second, 300)
+	// final confirmation in this process; a fresh process confirms again on replay
+	if r3 := execute(min); sameFailure(r3, res.Viol) {
+		rf = &ReplayFile{Violation: v, Tree: treeSHA, Minimised: true, MinInfo: info, Scenario: *min}
+		if err := writeJSON(path, rf); err != nil {
+			fmt.Fprintln(os.Stderr, "cannot write replay file:", err)
+			os.Exit(2)
+		}
+		return ViolationRef{Replay: path, Viol: v}
+	}
+	return ViolationRef{Replay: path, Viol: res.Viol}
+}
+
+func cmdReplay(args []string) {
+	fs := flag.NewFlagSet("replay", flag.ExitOnError)
+	file := fs.String("file", "", "replay file")
+	tries := fs.Int("tries", 1, "attempts (race lane only)")
+	fs.StringVar(&treeSHA, "tree", "", "fingerprint of the instrumented tree")
+	fs.StringVar(&fixtureDir, "fixtures", fixtureDir, "directory of archived streams")
+	sitesFile := fs.String("sites", "", "sites.txt")
+	fs.Parse(args)
+	loadSites(*sitesFile)
+	b, err := os.ReadFile(*file)
+	if err != nil {
+		fmt.Fprintln(os.Stderr, err)
+		os.Exit(2)
+	}
+	var rf ReplayFile
+	if err := json.Unmarshal(b, &rf); err != nil {
+		fmt.Fprintln(os.Stderr, "bad replay file:", err)
+		os.Exit(2)
+	}
+	if rf.Tree != "" && treeSHA != "" && rf.Tree != treeSHA {
+		fmt.Fprintf(os.Stderr, "note: replay file was recorded on tree %s, current tree is %s\n", clip(rf.Tree, 12), clip(treeSHA, 12))
+	}
+	scn := &rf.Scenario
+	if scn.Lane == "sim" {
+		runtime.GOMAXPROCS(1)
+		debug.SetGCPercent(-1)
+		debug.SetMemoryLimit(8 << 30)
+	}
+	startWatchdog(180 * time.Second)
+	for i := 0; i < *tries; i++ {
+		res := execute(scn)
+		if res.Viol != nil && (rf.Violation == nil || (res.Viol.Oracle == rf.Violation.Oracle)) {
+			fmt.Printf("REPRODUCED %s\n", res.Viol)
+			if res.Viol.Expected != "" || res.Viol.Got != "" {
+				fmt.Printf("  expected: %s\n  got:      %s\n", res.Viol.Expected, res.Viol.Got)
+			}
+			fmt.Printf("VIOLATION property=%s replay=%s\n", scn.Prop, *file)
+			os.Exit(1)
+		}
+		if res.Viol != nil {
+			fmt.Printf("different failure on replay: %s\n", res.Viol)
+		}
+	}
+	fmt.Printf("NOT-REPRODUCED property=%s replay=%s\n", scn.Prop, *file)
+	os.Exit(3)
+}
+
+// --- site table ---------------------------------------------------------------
+
+var siteNames []string
+
+func loadSites(path string) {
+	if path == "" {
+		return
+	}
+	b, err := os.ReadFile(path)
+	if err != nil {
+		return
+	}
+	lines := strings.Split(string(b), "\n")
+	siteNames = make([]string, len(lines)+2)
+	for _, l := range lines {
+		var id int
+		var loc string
+		if n, _ := fmt.Sscanf(l, "%d %s", &id, &loc); n == 2 && id < len(siteNames) {
+			siteNames[id] = loc
+		}
+	}
+}
+
+func siteName(id int) string {
+	if id == 0 {
+		return "harness-yield"
+	}
+	if id < 0 {
+		return "lock-spin"
+	}
+	if id < len(siteNames) && siteNames[id] != "" {
+		return siteNames[id]
+	}
+	return fmt.Sprintf("site%d", id)
 }
